@@ -155,6 +155,11 @@ impl Stream for Ir {
                 labels.push("callback".into());
                 let req = make_request(node("kind", vec![atom("cb"), st(sig)]), &p);
                 cases.push(Case { kind: "pred", labels: labels.clone(), request: retag(&req, "cfgcheck") });
+                if k % 2 == 1 {
+                    let mut l = labels.clone();
+                    l.push("hdr-callback".into());
+                    cases.push(Case { kind: "pred", labels: l, request: retag(&req, "cfgcheck-cxx") });
+                }
                 cases.push(Case { kind: "model", labels, request: req });
             } else {
                 let ty = *rng.pick(crate::proggen::ALL_TYS);
@@ -170,6 +175,30 @@ impl Stream for Ir {
                 }
                 let req = make_request(node("kind", vec![atom("prop"), st(prop_of(ty))]), &p);
                 cases.push(Case { kind: "pred", labels: labels.clone(), request: retag(&req, "cfgcheck") });
+                if k % 2 == 0 {
+                    // the same program through the whole pipeline: the bodies found in the real header; for the types
+                    // that have one, as a sub-binding of a grouped (gadget) property of the QWidget-derived VBase
+                    let path = match ty {
+                        Ty::Int if k % 4 == 0 => *rng.pick(&["font.pointSize", "font.weight", "sizePolicy.horizontalStretch"]),
+                        Ty::Bool if k % 4 == 0 => *rng.pick(&["font.bold", "font.italic", "font.kerning"]),
+                        Ty::Str if k % 4 == 0 => "font.family",
+                        _ => prop_of(ty),
+                    };
+                    let mut l = labels.clone();
+                    l.push(if path.contains('.') { "hdr-gadget".into() } else { "hdr".into() });
+                    // one in six: the tail of a block body is cut off, so that some path may end without a value: the
+                    // translator must then refuse the binding (nothing to check) — if it accepts, the body in the header
+                    // has a reachable bare `return;`
+                    let hp = match &p {
+                        Program::Stmt(crate::ast::Stmt::Block(stmts)) if stmts.len() >= 2 && rng.chance(1, 6) => {
+                            l.push("tail-cut".into());
+                            Program::Stmt(crate::ast::Stmt::Block(stmts[..stmts.len() - 1].to_vec()))
+                        }
+                        _ => p.clone(),
+                    };
+                    let hreq = make_request(node("kind", vec![atom("prop"), st(path)]), &hp);
+                    cases.push(Case { kind: "pred", labels: l, request: retag(&hreq, "cfgcheck-cxx") });
+                }
                 cases.push(Case { kind: "model", labels, request: req });
             }
         }
@@ -177,7 +206,27 @@ impl Stream for Ir {
     }
 
     fn answer(&self, req: &Sexp) -> Sexp {
-        let (_, args) = req.as_node().expect("request node");
+        let (tag, args) = req.as_node().expect("request node");
+        if tag == "cfgcheck-cxx" {
+            // the function bodies of the REAL header, re-read from the emitted C++ (harness/src/cxxcfg.rs)
+            let (_, kind) = args[2].as_node().unwrap();
+            let is_cb = kind[0].as_atom() == Some("cb");
+            let name = kind[1].as_str().unwrap();
+            let program = ast::program_of(&args[3]);
+            let lhs = if is_cb { format!("on{}", cap(name)) } else { name.to_owned() };
+            let src = document(&lhs, &program);
+            let t = env::translate(&self.tm, &src, "MyType", Mode::Generate);
+            if t.syntax_errors > 0 {
+                return node("syntax-error", vec![st(src)]);
+            }
+            if t.has_error() || t.header.is_none() {
+                return node("rejected", t.diags.iter().filter(|d| d.is_error).map(|d| st(d.message.clone())).collect());
+            }
+            return match crate::cxxcfg::functions(t.header.as_deref().unwrap()) {
+                Ok(fns) => node("header", fns),
+                Err(e) => node("unreadable-header", vec![st(e)]),
+            };
+        }
         let (_, kind) = args[2].as_node().unwrap();
         let is_cb = kind[0].as_atom() == Some("cb");
         let name = kind[1].as_str().unwrap();
